@@ -1,6 +1,7 @@
 """Unclassified fault injectors for Part 21 text (C05): grammar-aware token mutations, stretching, truncation,
 byte noise, fixed pathological shapes and exhaustive short parameter strings.  All return bytes."""
 import copy
+import re
 import itertools
 from . import ref_p21, gen_p21
 from .model import SIMPLE
@@ -49,6 +50,28 @@ def p21_mutants(base, rng, n_tok, n_trunc):
             a2, b2 = span(t2)
             m = base[:a] + t2[1] + base[b:a2] + t[1] + base[b2:]
         out.append((_b(m), 'token ' + op, _tok_class(t[0], t[1]) + (' in header' if pool is hdr_toks else '')))
+    # --- whole instance records: the same record twice (adjacent and at the end of the section), a record under the name of
+    # another one, two records swapped - the second occurrence of a name re-reads into the object the first one made
+    lines = base.split('\n')
+    recs = [i for i, l in enumerate(lines) if re.match(r'^\s*[CIND]?\s*#\d+\s*=', l) and l.rstrip().endswith(';')]
+    if len(recs) >= 2:
+        end = next((i for i in range(recs[-1], len(lines)) if lines[i].startswith('ENDSEC')), len(lines))
+        for k in range(max(2, n_tok // 8)):
+            i = rng.choice(recs)
+            how = ('adjacent', 'at the end of the section', 'under the name of another record', 'swapped with another record')[k % 4]
+            ls = list(lines)
+            if how == 'adjacent':
+                ls.insert(i + 1, lines[i])
+            elif how == 'at the end of the section':
+                ls.insert(end, lines[i])
+            elif how == 'under the name of another record':
+                j = rng.choice([x for x in recs if x != i])
+                name = re.match(r'^(\s*[CIND]?\s*#\d+)', lines[j]).group(1)
+                ls.insert(end, re.sub(r'^\s*[CIND]?\s*#\d+', lambda m: name, lines[i], 1))
+            else:
+                j = rng.choice([x for x in recs if x != i])
+                ls[i], ls[j] = ls[j], ls[i]
+            out.append((_b('\n'.join(ls)), 'instance record repeated' if k % 4 < 3 else 'instance records swapped', how))
     # --- stretching
     bykind = {}
     for t in data_toks:
@@ -191,6 +214,36 @@ def p21_short_params(base, schema, pop, maxlen=2):
     return out
 
 
+def _faulty_aggregate_families(schema, pop, f):
+    """One aggregate attribute of the population filled with n elements each of which is recoverably wrong for its element type
+    (integers without a decimal point in an aggregate of REAL, strings in an aggregate of INTEGER ...): per-element error handling
+    must not make the read quadratic."""
+    out = []
+    seen = set()
+    for inst in pop.insts:
+        if inst.complex:
+            continue
+        kw = inst.parts[0][0]
+        for j, (owner, a, der) in enumerate(schema.all_attrs(kw.lower())):
+            t = a.type
+            while t.kind == 'named' and schema.type(t.name).kind == 'simple':
+                t = schema.type(t.name).base
+            if der or t.kind != 'aggr' or t.elem.kind not in ('REAL', 'INTEGER', 'STRING', 'BOOLEAN') or t.elem.kind in seen:
+                continue
+            seen.add(t.elem.kind)
+            bad = {'REAL': '7', 'INTEGER': "'x'", 'STRING': '7', 'BOOLEAN': '7'}[t.elem.kind]
+            good = {'REAL': '7.5', 'INTEGER': '7', 'STRING': "'s'", 'BOOLEAN': '.T.'}[t.elem.kind]
+            toks = gen_p21.inst_tokens(inst)
+
+            def body(n, inst=inst, j=j, elem=bad):
+                i2 = copy.deepcopy(inst)
+                i2.parts[0][1][j] = ('raw', '(' + ','.join([elem] * max(1, n // (len(elem) + 1))) + ')')
+                return gen_p21.join_tokens(gen_p21.inst_tokens(i2), 'compact', None)
+            out.append(('aggregate of %s with n faulty elements' % t.elem.kind, f(body)))
+            out.append(('aggregate of %s with n well-formed elements' % t.elem.kind, f(lambda n, inst=inst, j=j, elem=good: body(n, inst, j, elem))))
+    return out
+
+
 def p21_scaling_families(schema, pop):
     """Families of inputs whose size is a parameter: the CPU time of reading+writing must grow (about) linearly with it.
     -> [(family name, function n -> bytes)]"""
@@ -212,5 +265,6 @@ def p21_scaling_families(schema, pop):
         ('comment of n characters before an instance', f(lambda n: '/*' + 'c ' * n + '*/\n' + line)),
         ('aggregate of n integers as first parameter', f(lambda n: '#1=%s((%s));' % (kw, ','.join(['7'] * n)))),
         ('n unknown entity instances', f(lambda n: '\n'.join('#%d=NOSUCH(1);' % (k + 1) for k in range(max(1, n // 8))))),
+    ] + _faulty_aggregate_families(schema, pop, f) + [
         ('complex instance with n integer parameters in one part', f(lambda n: '#1=(%s(%s));' % (kw, ','.join(['1'] * n)))),
     ]
